@@ -162,10 +162,23 @@ func enumPaths(start *ssa.BasicBlock, cfg walkCfg) (paths []*Path, truncated boo
 					return
 				}
 			}
-			// a condition already decided earlier on this path keeps its value
+			// a condition already decided earlier on this path keeps its value, unless it was recomputed
+			// since (its defining block was executed again, e.g. a loop condition)
 			if prev, ok := p.DecisionOn(last.Cond); ok {
-				try(prev)
-				return
+				recomputed := false
+				if di, isInstr := last.Cond.(ssa.Instruction); isInstr {
+					n := 0
+					for _, x := range p.Blocks {
+						if x == di.Block() {
+							n++
+						}
+					}
+					recomputed = n > 1
+				}
+				if !recomputed {
+					try(prev)
+					return
+				}
 			}
 			try(true)
 			try(false)
